@@ -656,6 +656,21 @@ def _enum_argument_forms():
                 yield {"sub": "history", "axolotl": axolotl, "ops": [["req", kind, args, {}], ["reply", 0, mode, S.tree_to_json(reply)], ["replay", 0]]}
 
 
+def _enum_many_outstanding():
+    """far more requests outstanding at once than any bound a layer might put on its bookkeeping: 130 of one kind (and 130 of two
+    kinds mixed), every one answered afterwards, oldest first"""
+    res = S.tree_to_json(("iq", {"type": "result", "id": "x", "from": "s.whatsapp.net"}, None))
+    seen = S.tree_to_json(("iq", {"type": "result", "id": "x", "from": "4915112345@s.whatsapp.net"}, [("query", {"seconds": "5"}, None)]))
+    for kinds in (["PingIqProtocolEntity"], ["LastseenIqProtocolEntity"], ["PingIqProtocolEntity", "LastseenIqProtocolEntity"]):
+        ops = []
+        for i in range(130):
+            k = kinds[i % len(kinds)]
+            ops.append(["req", k, [] if k == "PingIqProtocolEntity" else ["4915112345@s.whatsapp.net"], {}])
+        for i in range(130):
+            ops.append(["reply", i, "result", res if kinds[i % len(kinds)] == "PingIqProtocolEntity" else seen])
+        yield {"sub": "history", "axolotl": False, "ops": ops}
+
+
 def internal_strategy():
     sel = st.integers(0, 7)
     op = st.one_of(st.tuples(st.just("msg"), sel).map(list), st.tuples(st.just("msg"), sel).map(list), st.just(["count"]),
@@ -693,9 +708,12 @@ def plan(tier):
         strategies.append(("kind:" + kind, single_kind_strategy(kind), 2 if quick else 40))
     return {
         "shards": 16,
-        "enumerations": [("keepalive_between_application_requests", _enum_keepalive), ("text_and_bytes_forms_of_request_content", _enum_argument_forms)],
+        "enumerations": [("keepalive_between_application_requests", _enum_keepalive), ("text_and_bytes_forms_of_request_content", _enum_argument_forms),
+                         ("many_requests_outstanding", _enum_many_outstanding)],
         "strategies": strategies,
         "shrink": "hypothesis",
         "budget_s": 200 if quick else 1800,
         "collect_all": True,
     }
+
+RULE += (' Also: text and bytes forms of request content x result / error (enumerated); 130 requests outstanding at once, all answered afterwards.')
